@@ -1186,6 +1186,22 @@ func (env *Env) locsOf(l CExpr) []assignLoc {
 		}
 		env.errf("[*] needs a slice: %s", l)
 	}
+	if c, ok := l.(*CCall); ok && c.Fn == "allcells" && len(c.Args) == 1 {
+		// allcells(T): every memory cell holding a value of type T that is stored as one unit
+		// (pointers, interfaces, basic values, plain-data structs) - in particular the elements
+		// of every []T. Used for the scratch slices (diagnostics, mark sets) a function appends to.
+		if tn := typeArgName(c.Args[0]); tn != "" {
+			if t, _ := env.resolveType(tn); t != nil {
+				var out []assignLoc
+				for _, cell := range fe.eng.leafCells(t) {
+					fe.heapSorts[cell.varName] = arrSort(cell.sort)
+					out = append(out, assignLoc{hv: cell.varName, all: true, addr: "0"})
+				}
+				return out
+			}
+		}
+		env.errf("bad allcells(): %s", l)
+	}
 	if c, ok := l.(*CCall); ok && c.Fn == "allof" && len(c.Args) == 1 {
 		// allof(Type): the memory of a plain-data struct type (all objects)
 		if id, ok := c.Args[0].(*CIdent); ok {
